@@ -331,11 +331,21 @@ def mixin_part(C):
         "not write player variables)"
     C.ext("EnableDisableMixin._enable", model=hook("_enable"), trusted_reason=H)
     C.ext("EnableDisableMixin._disable", model=hook("_disable"), trusted_reason=H)
-    C.ext("EnableDisableMixin.notify_virtual_change", model=common.noop, trusted_reason="monitor notification")
+    C.ext("EnableDisableMixin.notify_virtual_change",
+          model=lambda I, env, a, k: (emit(I, "notify", attr=a[0], old=a[1], value=a[2]), NONE)[1],
+          trusted_reason="DeviceMonitor.notify_virtual_change: wakes every template subscribed to the attribute (C16)")
+
+    def notified(I, old, new):
+        evs = [e for e in events_named(I, "notify") if I.pyconst(I.force(e.args["attr"])) == "enabled"]
+        if len(evs) != 1:
+            return VBool(False)
+        return VBool(z3.And(I.eq(evs[0].args["old"], old), I.eq(evs[0].args["value"], new)))
+    C.helpers["notified_enabled"] = notified
+    C.helpers["n_notified"] = lambda I: VInt(len(events_named(I, "notify")))
     C.helpers["n_hook"] = lambda I, nm: VInt(len([e for e in events_named(I, "hook")
                                                   if e.args["name"] == I.pyconst(I.force(nm))]))
     C.helpers["n_posts"] = lambda I: VInt(len(events_named(I, "post")))
-    C.trace_helpers = {"n_hook", "n_posts"}
+    C.trace_helpers = {"n_hook", "n_posts", "notified_enabled", "n_notified"}
     PERSIST = "('persist_enable' in self.config and self.config['persist_enable'])"
     VAR = "self._player_var_name_for_enable"
     STORED = "self.player.vars[" + VAR + "]"
@@ -387,13 +397,18 @@ def mixin_part(C):
                    "(" + STORED + " is True) if " + PERSIST + " else (self._enabled is True)"),
                   ("the enable hook runs iff the flag was not already True",
                    "n_hook('_enable') == (0 if old((" + STORED + " if " + VAR + " in self.player.vars else 0) if " +
-                   PERSIST + " else self._enabled) is True else 1)")],
+                   PERSIST + " else self._enabled) is True else 1)"),
+                  ("EN1: every actual change of the enabled flag - persisted in a player variable or not - is announced "
+                   "to the templates subscribed to it, once (device attribute `enabled`, C16)",
+                   "notified_enabled(False, True) if n_hook('_enable') == 1 else n_notified() == 0")],
          modifies=["self._enabled", "self.player.vars.**"], raises={})
     C.fn("EnableDisableMixin.disable",
          requires=[NOT_RESERVED(VAR), ("a persisted flag can only be written while a player is bound",
                                        "implies(" + PERSIST + ", self.player is not None)")],
          ensures=[("the flag is cleared where it lives",
-                   "(" + STORED + " is False) if " + PERSIST + " else (self._enabled is False)")],
+                   "(" + STORED + " is False) if " + PERSIST + " else (self._enabled is False)"),
+                  ("EN2: every actual change is announced once (see EN1)",
+                   "notified_enabled(True, False) if n_hook('_disable') == 1 else n_notified() == 0")],
          modifies=["self._enabled", "self.player.vars.**"], raises={})
 
 
